@@ -57,6 +57,21 @@ func probePanic(s string) (where, msg string) {
 	if r := Satisfies("MIT", []string{s}); r.Panic != "" {
 		return "Satisfies(allowed entry)", r.Panic
 	}
+	if len(s) <= 256 {
+		// once more, now that the library has seen the string (and in a two-entry list)
+		if r := Satisfies("MIT", []string{"MIT", s}); r.Panic != "" {
+			return "Satisfies(allowed entry, first time in a two-entry list)", r.Panic
+		}
+		if r := Satisfies("MIT", []string{"MIT", s}); r.Panic != "" {
+			return "Satisfies(allowed entry, repeated call)", r.Panic
+		}
+		if r := Extract(s); r.Panic != "" {
+			return "ExtractLicenses (repeated call)", r.Panic
+		}
+		if r := Validate([]string{s, s}); r.Panic != "" {
+			return "ValidateLicenses (repeated entry)", r.Panic
+		}
+	}
 	return "", ""
 }
 
